@@ -53,6 +53,9 @@ def optTags (o : TraceOpts) : List String :=
   (if !o.mapAsStruct then ["opt:map-as-map"] else [])
 
 def frontEnds : List String := ["marrow", "builder", "arrow", "record_batch", "arrow2"]
+/-- API coverage (judged when present): `serializer` = SerdeArrowSchema::from_type → ArrayBuilder::new → Serializer by value →
+into_inner; `items` = the values as the column `item` through the `Item` / `Items` wrappers -/
+def optFrontEnds : List String := ["serializer", "items"]
 
 structure FrontVerdict where
   front : String
@@ -142,6 +145,7 @@ def handle (j : Json) : Except String Verdict := do
   let impl ← getObj j "impl"
   let fronts := (getObj j "fronts").toOption.getD Json.null
   let fvs := frontEnds.map fun f => judgeFront f (fronts.getObjVal? f).toOption rows.length excluded
+  let fvs := fvs ++ (optFrontEnds.map fun f => judgeFront f (fronts.getObjVal? f).toOption rows.length excluded).filter (·.res != "absent")
   let anyPanic := implCls impl == "panic" || fvs.any (·.panic)
   let c16 := if anyPanic then "fail" else "pass"
   let tags := tags ++ fvs.map (fun v => s!"{v.front}:{v.res}")
